@@ -16,7 +16,8 @@ type E3Spec struct {
 	Name     string
 	Cfg      rig.Config
 	Alphabet []ops.Op
-	Depth    int // length of the histories whose last call is faulted
+	Finals   []ops.Op // calls that are only explored as the last (faulted) call of a history: the Initialize variants
+	Depth    int      // length of the histories whose last call is faulted
 }
 
 type E3Stats struct {
@@ -46,6 +47,12 @@ func ExploreE3(p *pool.Pool, spec E3Spec, rep *Report, deadline time.Time) E3Sta
 	dry := []interface{}{}
 	for _, h := range e1.Reps {
 		for _, op := range spec.Alphabet {
+			dry = append(dry, &E3Job{Cfg: spec.Cfg, Hist: append(append([]ops.Op{}, h...), op)})
+		}
+		for _, op := range spec.Finals {
+			if op.K == "init-first" && len(h) > 0 {
+				continue
+			}
 			dry = append(dry, &E3Job{Cfg: spec.Cfg, Hist: append(append([]ops.Op{}, h...), op)})
 		}
 	}
